@@ -438,6 +438,9 @@ func arithLInt(g *G, ops []string) {
 	n := g.pick(6000, 150000)
 	for i := 0; i < n; i++ {
 		c := g.R.randCtxL(30)
+		if i%6 == 4 { // trapped: the result is delivered all the same (NaN for an impossible division)
+			c.T = []int{1967, 512, 1024 | 512, 16 | 64}[g.R.Intn(4)]
+		}
 		x := g.R.randL(c.P, 20)
 		y := g.R.randL(c.P, 20)
 		if i%12 == 0 { // quotients and coefficients at the machine-word boundaries: 19/20 digits (2^63, 2^64), 38/39 digits (2^127, 2^128)
